@@ -167,6 +167,18 @@ def search(rec, ctx):
         n = lrng.choice([250, 600, 1100]) if ctx.k else 1100
         kinds_ = [SHORT[lrng.randrange(len(SHORT))] if lrng.random() < 0.7 else SHORT[lrng.choice([0, 2, 3])] for _ in range(n)]
         check(rec, {"parts": [p for _, p in kinds_], "kinds": [k for k, _ in kinds_]})
+    # ... and lists long enough (tens of thousands of tokens) that any bound on what the parser keeps -- memo table, token
+    # window, line cache -- is crossed several times, at an offset that differs per worker and per seed; the statements
+    # are dominated by nested calls, i.e. by left-recursive rules that are in the middle of growing at most offsets
+    CALLS = [
+        ("python", "total = scale * clamp(round(a * b + fee(k, z)), low)\n"), ("python", "out[i].append(conv(base(x, y).get(key(n)), z)(q))\n"), ("python", "r = f(g(h(a, b), c), d(e(1)))\n"),
+        ("python", "v = 1\n"), ("python", "w = t.u(a)[b.c(d)](e).f\n"), ("subproc", "n = $(echo @(p(q(r))) s)\n"),
+    ]
+    if (8 if ctx.thorough else 3) <= ctx.k < (16 if ctx.thorough else 8):
+        n = lrng.choice([1500, 1900, 2300, 2700])
+        pad = lrng.randrange(0, 12)
+        kinds_ = [CALLS[3]] * pad + [CALLS[lrng.randrange(len(CALLS))] for _ in range(n)]
+        check(rec, {"parts": [p for _, p in kinds_], "kinds": [k for k, _ in kinds_]})
 
 
 def candidates(case):
